@@ -591,6 +591,10 @@ def C02(g, tier):
         lf, lh, lk = g.lohg(), g.lohg(), g.lohg()
         lnt = len(lf[2][0]) > 0 and len(lh[2][0]) > 0 and len(lf[2][3][0]) + len(lh[2][3][0]) > 0
         yield sx(["lohg_tensor", lf, lh]), lnt
+        # the in-place variants (tensor_assign, append, coproduct_assign) must give the same data
+        yield sx(["lohg_tensor_assign", lf, lh]), lnt
+        yield sx(["lohg_append", lf, lh]), lnt
+        yield sx(["lhg_coproduct_assign", lf[2], lh[2]]), lnt
         yield sx(["law", "vec", ["ltens", ["ltens", ["l", lf], ["l", lh]], ["l", lk]],
                   ["ltens", ["l", lf], ["ltens", ["l", lh], ["l", lk]]]]), lnt
         yield sx(["law", "vec", ["ltens", ["l", lempty], ["l", lf]], ["l", lf]]), lnt
@@ -618,6 +622,24 @@ def tournament_pair(g, half):
 
 def C03(g, tier):
     S = lambda f: ["s", f]
+    # the lax symmetry: exact data, agreement with the strict one, self-inverse, naturality, hexagon (after to_strict)
+    for _ in range(N(tier, 40, 400)):
+        a = g.nats(g.r.randint(0, 4), 2)
+        b = g.nats(g.r.randint(0, 4), 2)
+        c = g.nats(g.r.randint(0, 3), 2)
+        if g.r.random() < 0.3:
+            a, b, c = [0] * len(a), [0] * len(b), [0] * len(c)
+        nt = len(a) != len(b)
+        yield sx(["lohg_twist", a, b]), nt
+        yield sx(["law", "vec", ["to_strict", ["ltwist", a, b]], ["stwist", a, b]]), nt
+        yield sx(["law", "vec", ["to_strict", ["lcomp", ["ltwist", a, b], ["ltwist", b, a]]], ["sid", a + b]]), nt
+        yield sx(["law", "vec", ["to_strict", ["ltwist", a, b + c]],
+                  ["to_strict", ["lcomp", ["ltens", ["ltwist", a, b], ["lid", c]], ["ltens", ["lid", b], ["ltwist", a, c]]]]]), nt
+        lf = g.lohg()
+        lh = g.lohg()
+        (fa, fb), (ha, hb) = lohg_types(lf), lohg_types(lh)
+        yield sx(["law", "vec", ["to_strict", ["lcomp", ["ltens", ["l", lf], ["l", lh]], ["ltwist", fb, hb]]],
+                  ["to_strict", ["lcomp", ["ltwist", fa, ha], ["ltens", ["l", lh], ["l", lf]]]]]), len(fb) != len(hb)
     # the unit object as the crate names it (Monoidal::unit())
     for _ in range(N(tier, 20, 100)):
         f = g.ohg()
@@ -1252,6 +1274,13 @@ def single_writer_circuit(g, wide=0):
     ins = list(range(nin))
     nodes = nin
     written = list(ins)
+    # now and then some wires nobody writes (they hold the default value) that may be read or output
+    if g.r.random() < 0.25:
+        nd = g.r.randint(1, 3)
+        written += list(range(nodes, nodes + nd))
+        nodes += nd
+        if g.r.random() < 0.5:      # not all of them at the end of the node list
+            pass
     nops = g.r.randint(8, 25) if g.big() else g.r.randint(1, 7)
     if wide:
         nops = wide + g.r.randint(0, 4)
